@@ -317,4 +317,107 @@ theorem JWT_Verify_refines (now : Int) (j : Go.JWT) (iss cid : Go.Str) :
                   · simp [ok1, isOk_ite, hi, hA, hE, hT, nbfClass_absJ, hx, hS, hsub', isNone_ite_err, hB]
         · simp [hi]
 
+/-! ## main.go `VerifyJWTSignatureAndClaims` as translated is the model's whole verifier
+
+The key set, the JWK-to-PEM conversion and the signature check are calls into code that is not translated; they enter as fields
+of the instance record, characterised by the hypotheses: `jwkToPEM` succeeds exactly for the key types it supports, and
+`verifySignature` returns nil exactly when it knows a hash for `alg`, the key's family serves `alg`, and the signature is valid
+(`sig`: the reference verdict).  The rest — `kid`/`alg` typing, key selection by `kid`, the order of the checks, the claims — is
+the translated code. -/
+def absKey (fam : Go.JWK → Family) (k : Go.JWK) : Key := ⟨String.ofList k.Kid, fam k⟩
+
+theorem forRange_find {α ρ : Type} (xs : List α) (p : α → Bool) (f : α → Option α → Go.Ctl (Option α) ρ)
+    (hf : ∀ x s, f x s = if p x then .brk (some x) else .next s) (m0 : Option α) :
+    Go.forRange xs m0 f = .next (match xs.find? p with | some x => some x | none => m0) := by
+  induction xs generalizing m0 with
+  | nil => simp [Go.forRange]
+  | cons x xs ih =>
+    unfold Go.forRange
+    rw [hf]
+    cases hp : p x
+    · simp only [Bool.false_eq_true, if_false, List.find?_cons, hp]; exact ih m0
+    · simp [hp]
+
+theorem find_absKey (fam : Go.JWK → Family) (ks : List Go.JWK) (kid : String) :
+    (ks.map (absKey fam)).find? (fun x => x.kid == kid) = (ks.find? (fun k => k.Kid == kid.toList)).map (absKey fam) := by
+  induction ks with
+  | nil => rfl
+  | cons k ks ih =>
+    simp only [List.map_cons, List.find?_cons, absKey]
+    have : (String.ofList k.Kid == kid) = (k.Kid == kid.toList) := by
+      rw [Bool.eq_iff_iff]; simp only [beq_iff_eq]
+      constructor
+      · intro h; rw [← h]; simp
+      · intro h; rw [h]; simp
+    rw [this]
+    cases (k.Kid == kid.toList)
+    · simpa [absKey] using ih
+    · rfl
+
+theorem VerifyJWTSignatureAndClaims_refines (now : Int) (t : Go.Inst) (j : Go.JWT) (tok : Go.Str)
+    (fam : Go.JWK → Family) (sig : Bool) (jwks : Go.JWKSet)
+    (hj : t.getJWKS = (jwks, none))
+    (hpem : ∀ k, (t.jwkToPEM (some k)).2.isNone = decide (fam k ≠ .unsupported))
+    (hsig : ∀ k alg, (t.verifySignature tok (t.jwkToPEM (some k)).1 alg).isNone =
+        (Oidc.Facts.nine.contains (String.ofList alg) && decide (familyOfAlg (String.ofList alg) = fam k) && sig)) :
+    (Code.TraefikOidc_VerifyJWTSignatureAndClaims now t j tok).isNone =
+      accept codeFacts (String.ofList t.issuerURL) (String.ofList t.clientID) (jwks.Keys.map (absKey fam)) now
+        { absTok j with sigValid := sig } := by
+  obtain ⟨ex, ad, ar, gp, ecf, pj, iu, ci, gj, tp, vs⟩ := t
+  simp only at hj hpem hsig ⊢
+  rw [accept_eq]
+  have hcl : claimsStage codeFacts (String.ofList iu) (String.ofList ci) now { absTok j with sigValid := sig } =
+      claimsStage codeFacts (String.ofList iu) (String.ofList ci) now (absTok j) := rfl
+  rw [hcl, ← JWT_Verify_refines]
+  have hkid : ({ absTok j with sigValid := sig } : Tok).kid = absField j.Header ['k','i','d'] := rfl
+  have halg : ({ absTok j with sigValid := sig } : Tok).alg = absField j.Header ['a','l','g'] := rfl
+  unfold Code.TraefikOidc_VerifyJWTSignatureAndClaims sigStage
+  rw [hkid, halg, hj]
+  simp only [Option.isSome_none, Bool.false_eq_true, if_false]
+  rw [asStr_field j.Header ['k','i','d']]
+  cases hk : asStr (absField j.Header ['k','i','d']) with
+  | none => simp [isOk, absTok]
+  | some kid =>
+    simp only [Bool.not_true, Bool.false_eq_true, if_false]
+    rw [asStr_field j.Header ['a','l','g']]
+    cases ha : asStr (absField j.Header ['a','l','g']) with
+    | none => simp [isOk, absTok]
+    | some alg =>
+      simp only [Bool.not_true, Bool.false_eq_true, if_false]
+      rw [forRange_find jwks.Keys (fun k => k.Kid == kid.toList) _ (by intro x s; rfl), find_absKey]
+      cases hf : jwks.Keys.find? (fun k => k.Kid == kid.toList) with
+      | none => simp [isOk, absTok]
+      | some key =>
+        have hp := hpem key
+        have hs := hsig key alg.toList
+        simp only [String.ofList_toList] at hs
+        clear hcl hkid halg hsig hpem hj
+        simp only [Option.map_some, Option.isNone_some, Bool.false_eq_true, if_false, absKey, absTok, Bool.not_true]
+        rcases hpe : tp (some key) with ⟨pem, perr⟩
+        rw [hpe] at hp hs
+        simp only at hp hs
+        by_cases hu : fam key = .unsupported
+        · have : perr.isSome = true := by cases perr <;> simp [hu] at hp ⊢
+          simp [this, hu, isOk]
+        · have : perr.isSome = false := by cases perr <;> simp [hu] at hp ⊢
+          simp only [this, Bool.false_eq_true, if_false, hu]
+          by_cases hn : alg ∈ codeFacts.hashAlgs
+          · have hmem : alg ∈ Oidc.Facts.nine := hn
+            by_cases hfm : familyOfAlg alg = fam key
+            · cases sig
+              · have : (vs tok pem alg.toList).isSome = true := by
+                  cases hv : vs tok pem alg.toList <;> simp [hv, hmem, hfm] at hs ⊢
+                simp [this, hn, hfm, isOk]
+              · have : (vs tok pem alg.toList).isSome = false := by
+                  cases hv : vs tok pem alg.toList <;> simp [hv, hmem, hfm] at hs ⊢
+                simp only [this, Bool.false_eq_true, if_false]
+                cases hJ : Code.JWT_Verify now j iu ci <;> simp [hn, hfm, isOk]
+            · have : (vs tok pem alg.toList).isSome = true := by
+                cases hv : vs tok pem alg.toList <;> simp [hv, hmem, hfm] at hs ⊢
+              simp [this, hn, hfm, isOk]
+          · have hmem : alg ∉ Oidc.Facts.nine := hn
+            have : (vs tok pem alg.toList).isSome = true := by
+              cases hv : vs tok pem alg.toList <;> simp [hv, hmem] at hs ⊢
+            simp [this, hn, isOk]
+
 end Oidc.CodeRefine
